@@ -382,10 +382,47 @@ def cleanup_scratch():
         shutil.rmtree(_SCRATCH.pop(), ignore_errors=True)
 
 
+# -- optional line coverage of the library under test (tools/coverage_report.py; never used by a registered check) ---------
+_COVER = {"dir": os.environ.get("PBV_COVER"), "lines": set(), "on": False}
+
+
+def _cover_start():
+    """sys.monitoring LINE events for code objects of the pulsarbat package; each line reports once (then DISABLE)"""
+    if _COVER["on"] or not _COVER["dir"] or not hasattr(sys, "monitoring"):
+        return
+    mon = sys.monitoring
+    tool = mon.COVERAGE_ID
+    try:
+        mon.use_tool_id(tool, "pbv-cover")
+    except ValueError:
+        return
+    root = os.sep + "pulsarbat" + os.sep
+
+    def on_line(code, line):
+        if root in code.co_filename:
+            _COVER["lines"].add((code.co_filename, line))
+        return mon.DISABLE
+
+    mon.register_callback(tool, mon.events.LINE, on_line)
+    mon.set_events(tool, mon.events.LINE)
+    _COVER["on"] = True
+
+
+def _cover_dump(tag):
+    if not _COVER["on"]:
+        return
+    os.makedirs(_COVER["dir"], exist_ok=True)
+    path = os.path.join(_COVER["dir"], "lines-%s-%d.json" % (tag, os.getpid()))
+    with open(path, "w") as f:
+        json.dump(sorted(_COVER["lines"]), f)
+
+
 def run_job(prop_id, sub, tier, piece, npieces, seed0):
+    _cover_start()
     try:
         return _run_job(prop_id, sub, tier, piece, npieces, seed0)
     finally:
+        _cover_dump("%s-%s-%d" % (prop_id, sub.name, piece))
         cleanup_scratch()
 
 
